@@ -671,4 +671,69 @@ class C17(AsmPlan):
         return t
 
 
-ASM_PLANS = [C03(), C05(), C06(), C07(), C08(), C09(), C10(), C16(), C17()]
+
+class C14(TextPlan):
+    pid = 'C14'
+    tie = {**ASM_TIE, 93: None, 2: 3, 3: None, 5: None, 6: None, 7: None, 8: None, 9: None, 10: None}
+    mon_extra = False
+    binary = 'harness-race'
+    extra_env = {'GORACE': 'halt_on_error=1 exitcode=66'}
+    timeout_ms = 60000
+    tie_name = 'concurrent jobs under the race detector: every result of every goroutine vs the pure extracted model of that job'
+    rule = ('jobs = assemble a rendered program (incl. FOR counts over EQU chains, whose resolution walks Go maps) / build a simulator, add warrior data, scribble over the caller\'s copy afterwards, spawn, run; '
+            'each job repeated 12-24 times on 1..32 goroutines at once in a binary built with -race (halt on the first report); all repetitions must give one and the same result and it must equal the '
+            'pure model\'s; non-trivial = the job succeeded (assembled / battle ran)')
+    base_gens = [('prog', 150, progargs(2, 2, EQUS | FORS, 4)), ('prog', 60, progargs(2, 3, EQUS | SIGNS | ASSERTS, 4)), ('prog', 40, progargs(0, 2, EQUS, 4))]
+
+    def custom_cases(self, wd, tier, seed):
+        import engine as E
+        rng = random.Random(seed)
+        base = self.expand_texts(wd, tier, seed)
+        lines = []
+        for cfg, t in base:
+            threads = rng.choice([1, 2, 4, 8, 16, 32])
+            lines.append([14, threads, rng.choice([12, 16, 24]), 10] + cfg + list(t))
+        k = {'quick': 1, 'search': 1}.get(tier, 20)
+        for b in E.gen_cases('battle', seed + 5, 120 * k, [2 | 4 | 8 | 128, 3, 1, 60]):
+            threads = rng.choice([1, 4, 16, 32])
+            lines.append([14, threads, 8] + [int(x) for x in b.split()])
+        return [' '.join(str(x) for x in l) for l in lines]
+
+    def extra_monitor(self, ints, impl):
+        f = fatal(impl)
+        if f:
+            return f + ' (a data race report also ends the worker)'
+        r = find(impl, 93)
+        if r is not None and r[1] != 1:
+            return 'the-same-job-gave-%d-different-results' % r[1]
+        return None
+
+    def input_in_fragment(self, ints):
+        return True
+
+    def nontrivial(self, ints, impl):
+        return any(r and (r[:2] == [70, 0] or r[0] == 3) for r in impl)
+
+    def tags(self, ints, impl):
+        return ['threads=%d' % ints[1], 'job=' + {10: 'assemble', 1: 'battle'}.get(ints[3], str(ints[3]))]
+
+    def pretty(self, ints):
+        inner = ints[3:]
+        d = dict(threads=ints[1], repetitions=ints[2])
+        if inner[0] == 10:
+            d['assemble'] = dict(config=inner[1:9], text=bytes(x & 255 for x in inner[9:]).decode('latin-1'))
+        else:
+            d['battle'] = VM.pretty_battle(inner)
+        return d
+
+    def shrink(self, ints):
+        inner = ints[3:]
+        if inner[0] == 10:
+            for c in C05.shrink(self, inner):
+                yield ints[:3] + c
+        else:
+            for c in VM.shrink_battle(inner):
+                yield ints[:3] + c
+
+
+ASM_PLANS = [C03(), C05(), C06(), C07(), C08(), C09(), C10(), C14(), C16(), C17()]
